@@ -164,7 +164,10 @@ func runUniformSeq(l1, l2 int) string {
 	b := pat(l2, 'u')
 	v := new(secp256k1.Point)
 	v.SetUniformBytes(a)
-	w := new(secp256k1.Point).SetUniformBytes(b)
+	w := new(secp256k1.Point)
+	if w.SetUniformBytes(b) != w {
+		return "SetUniformBytes did not return its receiver"
+	}
 	want := ref.MapToCurve(ref.ModP(ref.OS2IP(b)))
 	if m := lib.CheckPointLight(w, want); m != "" {
 		return fmt.Sprintf("SetUniformBytes(len %d) right after a call with len %d: %s", l2, l1, m)
